@@ -110,16 +110,12 @@ theorem C02_transform_eq_spec : C02_transform_eq_spec_statement := by
       simp [hbs, hz] at hS
       subst hS
       have hgz : C.ground = z := by rw [hz] at hg; exact Option.some.inj hg
-      have hfil : translated Gen.tables cs = Spec.nonGround cs :=
-        (C07_nothing_dropped_iff Gen.tables ground_not_translated cs).mpr (fun c hc hk => by
-          rcases hex c hc with h | ⟨h, _⟩
-          · exact absurd h hk
-          · exact exactKinds_translated _ h)
+      have hfil : translated Gen.tables cs = Spec.nonGround cs := C07_nothing_dropped cs
       have hf := mapM_some_forall₂ _ _ _ hbs
       have hf' : List.Forall₂ (fun c sb => ∃ br,
           (match transformComponent Gen.tables trig harm c w wres with
             | some r => r
-            | none => Except.error (Err.other "unreachable: kind filtered")) = .ok br ∧ Spec.erase br = sb)
+            | none => Except.error Err.keyError) = .ok br ∧ Spec.erase br = sb)
           (Spec.nonGround cs) sbs := by
         refine forall₂_imp_mem hf ?_
         · intro c sb hc hcs
@@ -133,7 +129,7 @@ theorem C02_transform_eq_spec : C02_transform_eq_spec_statement := by
       have htb : transformBranches Gen.tables trig harm C.components w wres = .ok bs := by
         unfold transformBranches
         rw [hcomp]
-        have : cs.filter (fun c => Gen.tables.hasKind c.kind) = Spec.nonGround cs := hfil
+        have : cs.filter Gen.tables.selects = Spec.nonGround cs := hfil
         rw [this]; exact hbs'
       refine ⟨⟨bs, htb, hmap, hgz⟩, ?_⟩
       intro hcheck
